@@ -27,12 +27,11 @@ namespace Givaro {
         init(Fact[count], 0, lc);
         // write(cout << "P:", P) << endl;
         // _domain.write(cout << "lc(P):", lc) << endl;
-        assign(A, P);
+        div(A, P, lc);
         diff(B, A);
         // write(cout << "P':", B) << endl;
         gcd(D, A, B);
         // write(cout << "Gcd(P,P'):", D) << endl;
-        div(A, P, lc);
         // write(cout << "A/lc:", A) << endl;
         leadcoef(lc, D);
         // _domain.write(cout << "lc(Gcd):", lc) << endl;
